@@ -348,17 +348,21 @@ Proof.
 Qed.
 
 (* the declaration as written is read back, and names `upper enc` *)
+Lemma parse_decl_X e rest X :
+  read_until [34] X = Some (e, L_PI_CLOSE ++ rest) ->
+  parse_decl (L_DECL_HEAD ++ X) = Ok (Some e, rest).
+Proof.
+  intros Hq. unfold parse_decl, L_DECL_HEAD. cbn.
+  match goal with |- context [read_until ?a X] => change (read_until a X) with (read_until [34] X) end.
+  rewrite Hq. reflexivity.
+Qed.
+
 Lemma parse_decl_written e rest :
   forallb is_label_char e = true ->
   parse_decl (L_DECL_HEAD ++ e ++ L_DECL_TAIL ++ rest) = Ok (Some e, rest).
 Proof.
-  intros He. apply label_no_quote in He.
-  pose proof (read_until_char 34 e (L_PI_CLOSE ++ rest) He) as Hq.
-  change (L_DECL_TAIL ++ rest) with (34 :: L_PI_CLOSE ++ rest).
-  remember (e ++ 34 :: L_PI_CLOSE ++ rest) as X eqn:EX. clear EX.
-  unfold parse_decl, L_DECL_HEAD. cbn.
-  match goal with |- context [read_until ?a X] => change (read_until a X) with (read_until [34] X) end.
-  rewrite Hq. reflexivity.
+  intros He. apply label_no_quote in He. apply parse_decl_X.
+  exact (read_until_char 34 e (L_PI_CLOSE ++ rest) He).
 Qed.
 
 Lemma parse_decl_of enc rest :
@@ -383,4 +387,124 @@ Lemma label_eqb_upper enc : label_eqb (upper enc) enc = true.
 Proof.
   unfold label_eqb, upper, lower. rewrite map_map.
   rewrite (map_ext _ ascii_lower lower_upper_char). apply str_eqb_refl.
+Qed.
+
+(* ------------------------------------------------------------------------------------------ *)
+(* the writer calls of Document.__serialize, flattened *)
+
+Lemma epi_chunks_flat (w : str) (epi : list str) : epi <> [] ->
+  concat (w :: map (fun s => s ++ w) (removelast epi) ++ [last epi []]) = flat_map (fun s => w ++ s) epi.
+Proof.
+  induction epi as [|x epi IH]; intros Hne; [congruence|].
+  destruct epi as [|y r].
+  - cbn. rewrite !app_nil_r. reflexivity.
+  - specialize (IH ltac:(discriminate)).
+    change (removelast (x :: y :: r)) with (x :: removelast (y :: r)).
+    change (last (x :: y :: r) []) with (last (y :: r) []).
+    cbn [map app concat flat_map] in *. rewrite <- !app_assoc in *. f_equal. f_equal. exact IH.
+Qed.
+
+Lemma flat_map_map {A B C} (g : A -> B) (f : B -> list C) l : flat_map f (map g l) = flat_map (fun x => f (g x)) l.
+Proof. induction l; cbn; [reflexivity|]. rewrite IHl. reflexivity. Qed.
+
+Lemma concat_map_flat {A B} (f : A -> list B) l : concat (map f l) = flat_map f l.
+Proof. induction l; cbn; [reflexivity|]. rewrite IHl. reflexivity. Qed.
+
+Lemma concat_doc_chunks k enc pro rootc epi :
+  concat (doc_chunks k enc pro rootc epi)
+  = decl_of enc ++ pnl k ++ flat_map (fun s => s ++ pnl k) pro ++ rootc ++ flat_map (fun s => pnl k ++ s) epi.
+Proof.
+  unfold doc_chunks. cbn [concat]. rewrite concat_app, concat_map_flat. rewrite <- !app_assoc.
+  do 3 f_equal. cbn [app concat]. f_equal.
+  destruct epi as [|x r]; [reflexivity|]. cbn [null]. apply epi_chunks_flat. discriminate.
+Qed.
+
+(* _LengthTrackingWriter leaves document-level writes alone *)
+Definition head_ok (s : str) : Prop := match s with c :: _ => (c =? LF) = false | [] => False end.
+
+Lemma ltw_call_head a c : head_ok c -> ltw_call a c = (ends_nl c, c).
+Proof.
+  destruct c as [|x r]; cbn; [tauto|]. intros H. unfold ltw_call.
+  assert (E : (if a then lstrip_nl (x :: r) else x :: r) = x :: r) by (destruct a; cbn; rewrite ?H; reflexivity).
+  rewrite E. reflexivity.
+Qed.
+
+Lemma ends_nl_lf s : ends_nl (s ++ [LF]) = true.
+Proof. unfold ends_nl. rewrite rev_unit. reflexivity. Qed.
+
+Lemma head_ok_app s t : head_ok s -> head_ok (s ++ t).
+Proof. destruct s; cbn; tauto. Qed.
+
+Lemma ltw_write_lines l : Forall head_ok l -> forall a rest,
+  ltw_write a (map (fun s => s ++ [LF]) l ++ rest)
+  = flat_map (fun s => s ++ [LF]) l ++ ltw_write (if null l then a else true) rest.
+Proof.
+  induction 1 as [|x l Hx Hl IH]; intros a rest; [reflexivity|].
+  cbn [map app ltw_write flat_map null]. rewrite ltw_call_head by (apply head_ok_app; assumption).
+  rewrite ends_nl_lf, IH. rewrite <- !app_assoc. destruct (null l); reflexivity.
+Qed.
+
+Lemma Forall_removelast {A} (P : A -> Prop) l : Forall P l -> Forall P (removelast l).
+Proof.
+  induction 1 as [|x l Hx Hl IH]; [constructor|]. destruct l; [constructor|].
+  change (removelast (x :: a :: l)) with (x :: removelast (a :: l)). constructor; assumption.
+Qed.
+
+Lemma Forall_last {A} (P : A -> Prop) l d : l <> [] -> Forall P l -> P (last l d).
+Proof.
+  induction l as [|x l IH]; intros Hne H; [congruence|]. inversion H; subst.
+  destruct l; [assumption|]. apply IH; [discriminate|assumption].
+Qed.
+
+Lemma root_shape_head s : root_shape s = true -> head_ok s /\ ends_nl s = false.
+Proof.
+  unfold root_shape. destruct s as [|a [|c r]]; try discriminate.
+  - destruct a; try discriminate. repeat (destruct p; try discriminate).
+  - intros H.
+    assert (Ha : a = 60) by (destruct a; try discriminate; repeat (destruct p; try discriminate); reflexivity).
+    subst a. split; [reflexivity|].
+    apply andb_true_iff in H. destruct H as [_ H]. unfold ends_nl.
+    destruct (rev (60 :: c :: r)) as [|l t]; [reflexivity|]. apply N.eqb_eq in H. subst l. reflexivity.
+Qed.
+
+Lemma decl_head enc : head_ok (decl_of enc). Proof. reflexivity. Qed.
+
+Lemma write_chunks_concat k enc pro rootc epi :
+  Forall head_ok pro -> Forall head_ok epi -> root_shape rootc = true ->
+  write_chunks k (doc_chunks k enc pro rootc epi) = concat (doc_chunks k enc pro rootc epi).
+Proof.
+  intros Hp He Hr. destruct k; try reflexivity.
+  rewrite concat_doc_chunks. unfold write_chunks, doc_chunks. cbn [pnl].
+  destruct (root_shape_head _ Hr) as [Hh Hn].
+  cbn [ltw_write]. rewrite ltw_call_head by (apply head_ok_app, decl_head).
+  rewrite <- !app_assoc. f_equal. f_equal.
+  rewrite ltw_write_lines by assumption. f_equal.
+  cbn [app ltw_write]. rewrite ltw_call_head by assumption. rewrite Hn. f_equal.
+  destruct epi as [|x r]; [reflexivity|]. cbn [null].
+  rewrite <- (epi_chunks_flat [LF] (x :: r)) by discriminate.
+  cbn [ltw_write concat]. change (ltw_call false [LF]) with (true, [LF]). cbv iota beta. f_equal.
+  rewrite ltw_write_lines by (apply Forall_removelast; assumption).
+  rewrite concat_app, concat_map_flat. f_equal.
+  cbn [ltw_write concat]. rewrite ltw_call_head by (apply Forall_last; [discriminate|assumption]).
+  reflexivity.
+Qed.
+
+Lemma misc_head l : forallb misc_ok l = true -> Forall head_ok (map misc_str l).
+Proof.
+  induction l as [|n l IH]; cbn [forallb map]; intros H; [constructor|].
+  apply andb_true_iff in H. destruct H as [Hn Hl]. constructor; [|auto].
+  destruct n; try discriminate; reflexivity.
+Qed.
+
+(* the order of things in the stream: declaration, prologue, root, epilogue *)
+Definition doc_flat (k : skind) (enc : str) (d : doc) (rootc : str) : str :=
+  decl_of enc ++ pnl k ++ flat_map (fun n => misc_str n ++ pnl k) (prologue d) ++ rootc
+  ++ flat_map (fun n => pnl k ++ misc_str n) (epilogue d).
+
+Theorem doc_serialize_flat {fmt} (kind_of : fmt -> skind) (ser_root : fmt -> node -> str) enc fo d :
+  doc_ok d = true -> root_shape (ser_root fo (root d)) = true ->
+  doc_serialize kind_of ser_root enc fo d = doc_flat (kind_of fo) enc d (ser_root fo (root d)).
+Proof.
+  unfold doc_ok, doc_serialize, doc_flat. intros H Hr. apply andb_true_iff in H. destruct H as [Hp He].
+  rewrite write_chunks_concat by (auto using misc_head). rewrite concat_doc_chunks, !flat_map_map. reflexivity.
 Qed.
